@@ -145,7 +145,7 @@ func drawScenario(c *Case, o scenOpts) *scenario {
 		g.buildFails = c.Weighted("buildFails", 100-failPct, failPct) == 1
 
 		if g.buildFails && o.errKinds {
-			g.errKind = c.Weighted("errKind", 4, 1, 1, 1, 1)
+			g.errKind = c.Weighted("errKind", 4, 1, 1, 1, 1, 1, 1)
 		}
 
 		if o.skipRead {
